@@ -10,6 +10,7 @@ import (
 	"encoding/json"
 	"flag"
 	"fmt"
+	"hash/crc32"
 	"os"
 	"os/exec"
 	"path/filepath"
@@ -568,7 +569,12 @@ func sanitize(s string) string {
 			sb.WriteByte('_')
 		}
 	}
-	return sb.String()
+	out := sb.String()
+	if len(out) > 120 {
+		// file names are limited to 255 bytes: keep both ends and a checksum of the whole label
+		out = fmt.Sprintf("%s__%08x__%s", out[:60], crc32.ChecksumIEEE([]byte(s)), out[len(out)-40:])
+	}
+	return out
 }
 
 func copyFile(src, dst string) error {
